@@ -612,34 +612,40 @@ def walk_task(item):
         m["coords"] = c
         return m
 
-    def params():
+    # `active` is one state for the whole walk or one state per point of the path (the state of interest changes along
+    # the history, as after a surface hop or when a user asks for another state of a molecule already computed)
+    acts = tuple(active) if isinstance(active, (tuple, list)) else (active,) * len(path)
+
+    def params(act):
         p = sp.make_params(method, eps=1e-10, force_mode=mode)
-        if active:
+        if any(acts):
             p["excited_states"] = {"n_states": 3, "method": "cis", "tolerance": 1e-9}
-            p["active_state"] = active
+            p["active_state"] = act
         return p
 
-    def fresh(m):
-        molecule, es = sp.build([m], params())
+    def fresh(m, act):
+        molecule, es = sp.build([m], params(act))
         molecule.verbose = False
         es(molecule)
         return float(molecule.Etot[0]), sp.to_np(molecule.force)[0]
 
-    molecule, es = sp.build([geom(path[0])], params())
+    molecule, es = sp.build([geom(path[0])], params(acts[0]))
     molecule.verbose = False
     worst = {"dE": 0.0, "dF": 0.0, "dFD": 0.0}
-    for r in path:
+    for r, act in zip(path, acts):
         g = geom(r)
         with torch.no_grad():
             molecule.coordinates.copy_(torch.as_tensor(g["coords"]).unsqueeze(0))
+        if any(acts):
+            molecule.active_state = act
         es(molecule, P0=molecule.dm, cis_amp=molecule.cis_amplitudes)
         E, F = float(molecule.Etot[0]), sp.to_np(molecule.force)[0]
-        Ef, Ff = fresh(g)
+        Ef, Ff = fresh(g, act)
         worst["dE"] = max(worst["dE"], abs(E - Ef))
         worst["dF"] = max(worst["dF"], float(np.abs(F - Ff).max()))
     # derivative along the stretch at the last point, from fresh energies
     h = 2e-3
-    e = {k: fresh(geom(path[-1] + k * h))[0] for k in (-2, -1, 1, 2)}
+    e = {k: fresh(geom(path[-1] + k * h), acts[-1])[0] for k in (-2, -1, 1, 2)}
     dEdr = (8 * (e[1] - e[-1]) - (e[2] - e[-2])) / (12 * h)
     Fr = float((F[b:] * u).sum())  # force on the shifted group projected on the stretch direction
     worst["dFD"] = abs(Fr + dEdr)
@@ -652,14 +658,24 @@ def walks(chk, tier, seed):
         items.append(("H2CO", "AM1", 1, "analytical", (0, 1), (1.2, 1.5, 1.8), seed))
         items.append(("H2CO", "AM1", 0, mode, (0, 1), (1.2, 1.5, 1.8), seed))
     items.append(("H2CO", "AM1", 2, "analytical", (0, 1), (1.2, 1.5, 1.8), seed))
+    # every sequence of states of interest {S0, S1, S2} along the path on ONE object
+    import itertools
+
+    for acts in itertools.product((0, 1, 2), repeat=3):
+        if len(set(acts)) > 1:
+            items.append(("H2CO", "AM1", acts, "analytical", (0, 1), (1.2, 1.25, 1.3), seed))
     if tier != "quick":
+        for acts in itertools.product((0, 1, 2), repeat=2):
+            if len(set(acts)) > 1:
+                items.append(("CH3OH", "AM1", acts, "analytical", (0, 1), (1.42, 1.5), seed))
+                items.append(("H2O", "PM3", acts, "analytical", (0, 1), (0.96, 1.05), seed))
         items.append(("CH3OH", "AM1", 1, "analytical", (0, 1), (1.42, 1.7, 2.0), seed))
         items.append(("CH3OH", "PM3", 0, "analytical", (0, 1), (1.42, 1.7, 2.0), seed))
     items = list(dict.fromkeys(items))
     res = pmap(walk_task, items, chunk=1, timeout=1800, progress="C01 objects with a history")
     for it, r in zip(items, res):
         key = f"walk|{it[0]}|{it[1]}|S{it[2]}|{it[3]}|path={it[5]}"
-        desc = dict(kind="history_walk", molecule=it[0], method=it[1], active_state=it[2], mode=it[3])
+        desc = dict(kind="history_walk", molecule=it[0], method=it[1], active_state=(it[2] if isinstance(it[2], int) else "".join(map(str, it[2]))), mode=it[3])
         if isinstance(r, dict) and ("__error__" in r or "__timeout__" in r):
             chk.violation(desc, f"{key}: {str(r)[:300]}", replay={"walk": list(it)})
             continue
@@ -674,6 +690,9 @@ def replay(payload):
     if isinstance(payload.get("replay"), dict) and payload["replay"].get("walk"):
         it = payload["replay"]["walk"]
         it[4] = tuple(it[4])
+        it[5] = tuple(it[5])
+        if isinstance(it[2], list):
+            it[2] = tuple(it[2])
         r = walk_task(tuple(it))
         print(r)
         return r["dE"] <= 1e-6 and r["dF"] <= 1e-5 and r["dFD"] <= 1e-5
